@@ -5,7 +5,7 @@
 From Coq Require Import List NArith ZArith Bool Arith Lia Permutation.
 From Common Require Import Outcome.
 From Gen Require Import Consts C07.
-From C07 Require Import Model Proofs Proofs_text Proofs_term Proofs_len.
+From C07 Require Import Model Shape Proofs Proofs_text Proofs_term Proofs_len Proofs_match Proofs_safe Proofs_stack Proofs_full.
 Import ListNotations.
 
 (* C07 "terminates": for ANY lookup list (any shape, also shapes the reader
@@ -76,3 +76,51 @@ Theorem nomatch_is_pure :
     apply_sub keep sub s k a b = Ok (None, (s', k')) -> s' = s /\ k' = k.
 Proof. exact apply_sub_none. Qed.
 Print Assumptions nomatch_is_pure.
+
+(* C07 "does not panic".  reader_shape (Shape.v) is the boolean description of
+   what gtab.Read can deliver: coverage indices inside the arrays they index,
+   at least one input coverage table in format-3 contexts - and nothing else:
+   lookup indices, sequence indices, classes, mark classes, mark filtering
+   sets, empty replacement lists and action counts are arbitrary.
+   implemented excludes the positioning data the library declares
+   unimplemented (vertical advance, device offsets). *)
+
+(* stage 1: lookup lists without contextual subtables *)
+Theorem apply_no_panic_partial :
+  forall ll gd, simple ll = true -> reader_shape ll = true -> implemented ll = true ->
+  forall lookups s, M_shape ll gd lookups [] s <> Panic.
+Proof. exact apply_no_panic_simple. Qed.
+Print Assumptions apply_no_panic_partial.
+
+(* stage 2: every lookup list of reader shape, contextual subtables of all six
+   formats, self-referential and arbitrarily deep nesting, any number of
+   nested actions included *)
+Theorem apply_no_panic :
+  forall ll gd, reader_shape ll = true -> implemented ll = true ->
+  forall lookups s, M_shape ll gd lookups [] s <> Panic.
+Proof. exact apply_no_panic_gen. Qed.
+Print Assumptions apply_no_panic.
+
+(* the stack invariant behind it: InputPos strictly increasing and below
+   EndPos, EndPos <= |seq| and non-decreasing from the top of the stack down;
+   it is re-established by every subtable applied at a < b <= |seq| ... *)
+Theorem stack_invariant_step :
+  forall keep sub s k a b,
+    sub_shape sub = true -> sub_impl sub = true ->
+    a < b -> b <= length s -> stack_ok (length s) b k ->
+    exists r s' k', apply_sub keep sub s k a b = Ok (r, (s', k')) /\ stack_ok (length s') 0 k'.
+Proof. exact apply_sub_inv. Qed.
+Print Assumptions stack_invariant_step.
+
+(* ... in particular by fixStackInsert (one glyph at a became d+1 glyphs) *)
+Theorem fix_stack_insert_preserves :
+  forall n a d k b, a < b -> stack_ok n b k -> stack_ok (n + d) (b + d) (fix_insert a (S d) k).
+Proof. exact stack_ok_insert. Qed.
+
+(* ... and by fixStackMerge (the glyphs at a :: mnew, all below b, became one) *)
+Theorem fix_stack_merge_preserves :
+  forall n a mnew, inc_from (S a) mnew ->
+  forall k b, Forall (fun x => x < b) mnew -> a < b -> stack_ok n b k ->
+  stack_ok (n - length mnew) (b - length mnew) (fix_merge (a :: mnew) k).
+Proof. exact stack_ok_merge. Qed.
+Print Assumptions fix_stack_merge_preserves.
